@@ -18,6 +18,9 @@
 From Coq Require Import ZArith List Bool.
 From PTK Require Import Lib.Sx Lib.Py Lib.C07_Lemmas Model.C07_Undo Model.C07_Keys Model.C07_Table
   Gen.C07_Bindings Proofs.C07_UndoFacts Proofs.C07_KeysFacts Proofs.C07_TableFacts.
+From PTK Require Import Model.Document Model.BufferEdit.
+From PTK Require Model.C09_Kill.
+From PTK Require Import Proofs.C07_Payloads.
 Import ListNotations.
 Open Scope Z_scope.
 
@@ -230,12 +233,130 @@ Theorem C07_typed_group_fixed : forall h s e evs,
 Proof. exact typed_run_one_undo_fixed. Qed.
 Print Assumptions C07_typed_group_fixed.
 
+(* ---- terminal reports (round 3) ---- *)
+
+(* A cursor position report delivered as KeyProcessor.process_keys delivers it
+   since b5c33a8 (_handle_cpr_response: no _call_handler) changes nothing the
+   undo machinery looks at: text, cursor, both stacks and the "previous
+   handler" that decides is_repeat. *)
+Theorem C07_cpr_is_invisible : forall tbl s, kstep tbl s Cpr = s.
+Proof. exact cpr_is_invisible. Qed.
+Print Assumptions C07_cpr_is_invisible.
+
+(* Hence reports arriving BETWEEN the keys of a run do not split it: one
+   snapshot, and one undo restores the pre-run text and cursor. *)
+Theorem C07_group_with_reports : forall tbl h s n t c evs,
+  r_cls (lookup tbl h) = 2 -> r_act (lookup tbl h) = 0 ->
+  kprev s <> Some h -> Forall (in_run_of h) evs ->
+  wf (kbuf s) ->
+  let s' := krun tbl s (Key h n t c :: evs) in
+  utext (kbuf s') <> utext (kbuf s) ->
+  here (undo (kbuf s')) = here (kbuf s) /\
+  rstack (undo (kbuf s')) = [here (kbuf s')].
+Proof. exact group_one_undo_cpr. Qed.
+Print Assumptions C07_group_with_reports.
+
+(* ---- handler models instead of observations (round 3) ---- *)
+
+(* An undo key that never snapshots is exactly n calls of Buffer.undo plus the
+   Vi end-of-line cursor fix-up: it leaves the text undo() left. *)
+Theorem C07_undo_key_is_n_undos : forall tbl s h n nav,
+  r_act (lookup tbl h) = 1 -> r_cls (lookup tbl h) = 0 ->
+  let b := iter_op Undo (Z.to_nat n) (kbuf s) in
+  kbuf (kstep tbl s (UndoKey h n nav)) = set_state b (utext b) (fix_vi_cursor nav b).
+Proof. exact undo_key_is_n_undos. Qed.
+Print Assumptions C07_undo_key_is_n_undos.
+
+(* Every binding of the regenerated table is a plain handler behind a
+   snapshotting binding, an undo key that never snapshots, or the CPR binding. *)
+Theorem C07_table_classification : forall h,
+  (r_act (lookup c07_rows h) = 0 /\ r_cls (lookup c07_rows h) <> 0) \/
+  (r_act (lookup c07_rows h) = 1 /\ r_cls (lookup c07_rows h) = 0) \/
+  r_role (lookup c07_rows h) = 7.
+Proof. exact live_classification. Qed.
+Print Assumptions C07_table_classification.
+
+(* Repeated undo reaches the initial text after every session over the real
+   table made of: dispatches of plain snapshotting bindings with ARBITRARY
+   effects, undo keys as modelled, reports as delivered, direct redo() calls.
+   No "leaves the text alone" hypothesis is left. *)
+Theorem C07_table_reaches_start : forall t0 c0 evs k,
+  0 <= c0 <= len t0 -> Forall kev_ok evs -> Forall (modelled c07_rows) evs ->
+  let s := kbuf (krun c07_rows (kfresh t0 c0) evs) in
+  (length (ustack s) <= k)%nat ->
+  utext (iter_op Undo k s) = t0.
+Proof. exact live_reaches_start. Qed.
+Print Assumptions C07_table_reaches_start.
+
+(* ---- payloads tied to the edit models of C01 / C09 (round 3) ---- *)
+
+(* One undo right after any snapshotted command restores the state before it. *)
+Theorem C07_undo_restores_pre_command : forall s t c,
+  wf s -> t <> utext s ->
+  here (undo (ustep s (Cmd true t c))) = here s /\
+  rstack (undo (ustep s (Cmd true t c))) = [(t, c)].
+Proof. exact undo_restores_pre_command. Qed.
+Print Assumptions C07_undo_restores_pre_command.
+
+(* self-insert = BufferEdit.insert_text, through the real <any> binding *)
+Theorem C07_self_insert_then_undo : forall h s b data,
+  r_role (lookup c07_rows h) = 1 -> kprev s <> Some h ->
+  wf (kbuf s) -> agrees (kbuf s) b -> data <> [] ->
+  let b' := res_buf (insert_text b data false true) in
+  here (undo (kbuf (kstep c07_rows s (cmd_key h b')))) = (btext b, bcur b).
+Proof. exact self_insert_then_undo. Qed.
+Print Assumptions C07_self_insert_then_undo.
+
+(* backspace = BufferEdit.delete_before_cursor, through the real c-h binding *)
+Theorem C07_backspace_then_undo : forall h s b n,
+  r_role (lookup c07_rows h) = 2 -> kprev s <> Some h ->
+  wf (kbuf s) -> agrees (kbuf s) b -> 1 <= n -> 0 < bcur b ->
+  let b' := res_buf (delete_before_cursor b n) in
+  here (undo (kbuf (kstep c07_rows s (cmd_key h b')))) = (btext b, bcur b).
+Proof. exact backspace_then_undo. Qed.
+Print Assumptions C07_backspace_then_undo.
+
+(* delete = BufferEdit.delete, through the real delete / c-delete bindings *)
+Theorem C07_delete_then_undo : forall h s b n,
+  r_role (lookup c07_rows h) = 3 -> kprev s <> Some h ->
+  wf (kbuf s) -> agrees (kbuf s) b -> 1 <= n -> bcur b < len (btext b) ->
+  let b' := res_buf (delete b n) in
+  here (undo (kbuf (kstep c07_rows s (cmd_key h b')))) = (btext b, bcur b).
+Proof. exact delete_then_undo. Qed.
+Print Assumptions C07_delete_then_undo.
+
+(* kill-line, kill-word, yank = the C09 models, through c-k / escape d / c-y *)
+Theorem C07_kill_line_then_undo : forall h s (e : C09_Kill.st) arg,
+  r_role (lookup c07_rows h) = 8 -> wf (kbuf s) -> agrees (kbuf s) (C09_Kill.sb e) ->
+  let b' := C09_Kill.sb (snd (C09_Kill.kill_line e arg)) in
+  btext b' <> btext (C09_Kill.sb e) ->
+  here (undo (kbuf (kstep c07_rows s (cmd_key h b')))) = (btext (C09_Kill.sb e), bcur (C09_Kill.sb e)).
+Proof. exact kill_line_then_undo. Qed.
+Print Assumptions C07_kill_line_then_undo.
+
+Theorem C07_kill_word_then_undo : forall h s (e : C09_Kill.st) arg rep,
+  r_role (lookup c07_rows h) = 9 -> wf (kbuf s) -> agrees (kbuf s) (C09_Kill.sb e) ->
+  let b' := C09_Kill.sb (snd (C09_Kill.kill_word e arg rep)) in
+  btext b' <> btext (C09_Kill.sb e) ->
+  here (undo (kbuf (kstep c07_rows s (cmd_key h b')))) = (btext (C09_Kill.sb e), bcur (C09_Kill.sb e)).
+Proof. exact kill_word_then_undo. Qed.
+Print Assumptions C07_kill_word_then_undo.
+
+Theorem C07_yank_then_undo : forall h s (e : C09_Kill.st) arg,
+  r_role (lookup c07_rows h) = 10 -> wf (kbuf s) -> agrees (kbuf s) (C09_Kill.sb e) ->
+  let b' := C09_Kill.sb (snd (C09_Kill.yank e arg)) in
+  btext b' <> btext (C09_Kill.sb e) ->
+  here (undo (kbuf (kstep c07_rows s (cmd_key h b')))) = (btext (C09_Kill.sb e), bcur (C09_Kill.sb e)).
+Proof. exact yank_then_undo. Qed.
+Print Assumptions C07_yank_then_undo.
+
 (* Non-vacuity: a reachable state with two stacked snapshots and a redo entry
    is well-formed; the real table has every role. *)
 Example C07_hypotheses_satisfiable :
   wf (urun (fresh [97] 1) [Cmd true [97; 98] 2; Cmd true [97; 98; 99] 3; Cmd true [] 0; Undo]) /\
   all_effective (urun (fresh [97] 1) [Cmd true [97; 98] 2; Cmd true [97; 98; 99] 3; Cmd true [] 0]) 2 /\
-  has_role c07_rows 1 = true /\ has_role c07_rows 4 = true /\ has_role c07_rows 6 = true.
+  has_role c07_rows 1 = true /\ has_role c07_rows 4 = true /\ has_role c07_rows 6 = true /\
+  has_role c07_rows 7 = true /\ has_role c07_rows 8 = true /\ has_role c07_rows 9 = true /\ has_role c07_rows 10 = true.
 Proof.
   split; [apply wf_run; [apply wf_fresh; vm_compute; split; discriminate|
                          repeat constructor; vm_compute; discriminate]|].
